@@ -323,8 +323,12 @@ impl<const BITS: usize, const LIMBS: usize> Uint<BITS, LIMBS> {
             r.limbs[i + limbs] = (x << bits) | carry;
             carry = (x >> (word_bits - bits - 1)) >> 1;
         }
+        // Bits are also lost through the dropped high limbs and the top-limb mask.
+        let overflow = carry != 0
+            || self.limbs[LIMBS - limbs..].iter().any(|&x| x != 0)
+            || r.limbs[LIMBS - 1] > Self::MASK;
         r.apply_mask();
-        (r, carry != 0)
+        (r, overflow)
     }
 
     /// Left shift by `rhs` bits.
@@ -387,7 +391,9 @@ impl<const BITS: usize, const LIMBS: usize> Uint<BITS, LIMBS> {
             r.limbs[LIMBS - 1 - i - limbs] = (x >> bits) | carry;
             carry = (x << (word_bits - bits - 1)) << 1;
         }
-        (r, carry != 0)
+        // Bits are also lost through the dropped low limbs.
+        let overflow = carry != 0 || self.limbs[..limbs].iter().any(|&x| x != 0);
+        (r, overflow)
     }
 
     /// Right shift by `rhs` bits.
